@@ -107,6 +107,23 @@ def main():
             if other:
                 failures.append({'id': f'list_{name}', 'class': None, 'case': {'spelling': name}, 'detail': other[:3]})
             samples.append({'spelling': name, 'names': len(NAMES)})
+        # names with a '.' or '..' path segment alias other objects on a file system (known finding D18)
+        cases += 1
+        try:
+            root = base / 'dots'
+            shutil.rmtree(root, ignore_errors=True)
+            b = Local(str(root))
+            b.upload('d/b', b'old')
+            b.upload('d/a/../b', b'NEW')
+            probs = []
+            if b.download('d/b') != b'old':
+                probs.append('an upload under another name replaced the object')
+            if sorted(b.list_files('d/')) != ['d/a/../b', 'd/b']:
+                probs.append('the listing differs from the names uploaded')
+            if probs:
+                failures.append({'id': 'dot_segments', 'class': 'D18', 'case': {'names': ['d/b', 'd/a/../b']}, 'detail': probs})
+        except Exception as e:
+            failures.append({'id': 'dot_segments', 'class': 'D18', 'case': {'names': ['d/b', 'd/a/../b']}, 'detail': [f'{type(e).__name__}: {e}'[:200]]})
         for i in range(200 if tier == 'thorough' else 10):
             cases += 1
             try:
